@@ -585,24 +585,131 @@ Proof.
     destruct (ali_clear a side h) as [h1 r1]. intros E; inversion E; subst; exact F.
 Qed.
 
+(* ------------------------------------------------------------------ copy(new_residues) / deep_copy(new_residues) *)
+Lemma graft_spec deep mt ts (src : handle) mode i (h h' : heap) Y :
+  graft deep mt ts src mode i h = (h', Ok Y) ->
+  exists mt' ts' rs', Y = HM mt' ts' rs' /\
+    fresh_in (length (hgro h)) (length (hgro h')) (concat rs') /\
+    (if deep then fresh_in (length (htop h)) (length (htop h')) ts' /\ length (hmt h) <= mt' < length (hmt h')
+     else mt' = mt /\ ts' = ts).
+Proof.
+  unfold graft. intros E.
+  apply mbind_ok in E. destruct E as (h1 & rs & E1 & E).
+  pose proof (framed_le3 _ _ _ _ _ _ _ (framed_graft_residues allp allp allp src mode i) E1) as (L1 & L2 & L3).
+  destruct deep.
+  - apply mbind_ok in E. destruct E as (h2 & [mt' ts'] & E2 & E). simpl in E.
+    apply mtop_copy_spec in E2. destruct E2 as (Eg & Ft & Fm).
+    pose proof (framed_le3 _ _ _ _ _ _ _ (framed_mol_init allp allp allp mt' ts' rs) E) as (M1 & M2 & M3).
+    apply mol_init_spec in E. destruct E as (rs' & -> & F).
+    exists mt', ts', rs'. splits; auto.
+    + eapply fresh_in_weaken; [| |exact F]; try lia. rewrite Eg. lia.
+    + eapply fresh_in_weaken; [| |exact Ft]; lia.
+    + lia.
+    + lia.
+  - apply mol_init_spec in E. destruct E as (rs' & -> & F).
+    exists mt, ts, rs'. splits; auto. eapply fresh_in_weaken; [| |exact F]; lia.
+Qed.
+
+(* appending a handle all of whose cells are freshly allocated (a deep copy) *)
+Lemma wf_push_fresh h h' fam (Y : handle) :
+  wf h fam -> le3 h h' -> valid h' Y ->
+  fresh_in (length (hgro h)) (length (hgro h')) (gro_locs Y) ->
+  fresh_in (length (htop h)) (length (htop h')) (top_locs Y) ->
+  fresh_in (length (hmt h)) (length (hmt h')) (mt_locs Y) ->
+  wf h' (fam ++ [(length fam, length fam, Y)]).
+Proof.
+  intros [W1 W2] L VY F1 F2 F3.
+  assert (NewOld : forall i gi ti Xi, nth_error fam i = Some (gi, ti, Xi) ->
+            disj (gro_locs Y) (gro_locs Xi) /\ disj (top_locs Y) (top_locs Xi) /\ disj (mt_locs Y) (mt_locs Xi)).
+  { intros i gi ti Xi ENi. destruct (W1 _ _ _ _ ENi) as ((v1 & v2 & v3) & _).
+    splits; eapply disj_fresh; eauto. }
+  split.
+  - intros i g' tg' X' EN'. apply nth_error_snoc in EN'. rewrite app_length; simpl. destruct EN' as [EN'|[-> EN']].
+    + destruct (W1 _ _ _ _ EN') as (V & a & b). splits; try lia. eapply valid_le3; eauto.
+    + inversion EN'; subst. splits; auto; lia.
+  - intros i i' gi ti Xi gi' ti' Xi' ENi ENi'.
+    apply nth_error_snoc in ENi. apply nth_error_snoc in ENi'.
+    destruct ENi as [ENi|[-> ENi]]; destruct ENi' as [ENi'|[-> ENi']].
+    + eapply W2; eauto.
+    + inversion ENi'; subst. destruct (NewOld _ _ _ _ ENi) as (D1 & D2 & D3).
+      split; [intros _; apply disj_sym; auto | intros _; split; apply disj_sym; auto].
+    + inversion ENi; subst. destruct (NewOld _ _ _ _ ENi') as (D1 & D2 & D3). split; auto.
+    + inversion ENi; inversion ENi'; subst. split; intros; congruence.
+Qed.
+
+Lemma step_graft_wf (h : heap) (fam : family) k deep mode j i h' fam' r :
+  wf h fam -> step_graft (h, fam) k deep mode j i = ((h', fam'), r) -> wf h' fam'.
+Proof.
+  intros W. unfold step_graft.
+  destruct (nth_error fam k) as [[[g tg] X]|] eqn:EN; [|intros E; inversion E; subst; auto].
+  destruct X as [| | |mt ts rs| |]; try (intros E; inversion E; subst; auto; fail).
+  destruct (nth_error fam j) as [[[gj tj] src]|] eqn:ENj; [|intros E; inversion E; subst; auto].
+  destruct (graft deep mt ts src mode i h) as [h1 [Y|e]] eqn:EG; intros E; inversion E; subst; clear E;
+    pose proof (framed_le3 _ _ _ _ _ _ _ (framed_graft allp allp allp deep mt ts src mode i) EG) as L.
+  2: eapply wf_le3; eauto.
+  apply graft_spec in EG. destruct EG as (mt' & ts' & rs' & -> & F & D).
+  pose proof W as [W1 _]. destruct (W1 _ _ _ _ EN) as ((_ & v2 & v3) & _). simpl in v2, v3.
+  destruct L as (l1 & l2 & l3).
+  destruct deep.
+  - destruct D as (Ft & Fm). eapply wf_push_fresh; eauto; simpl; auto.
+    + split; auto.
+    + unfold valid; simpl. splits.
+      * intros l Hl. apply F in Hl. lia.
+      * intros l Hl. apply Ft in Hl. lia.
+      * intros l [<-|[]]. lia.
+    + intros l [<-|[]]. lia.
+  - destruct D as (-> & ->). eapply wf_push_copy; eauto; simpl; try apply incl_refl.
+    + split; auto.
+    + unfold valid; simpl. splits.
+      * intros l Hl. apply F in Hl. lia.
+      * intros l Hl. apply v2 in Hl. lia.
+      * intros l Hl. apply v3 in Hl. lia.
+Qed.
+
+Lemma step_graft_keeps_entry (h : heap) (fam : family) k deep mode j i h' fam' r n e :
+  step_graft (h, fam) k deep mode j i = ((h', fam'), r) -> nth_error fam n = Some e -> nth_error fam' n = Some e.
+Proof.
+  unfold step_graft.
+  destruct (nth_error fam k) as [[[g tg] X]|]; [|intros E; inversion E; subst; auto].
+  destruct X as [| | |mt ts rs| |]; try (intros E; inversion E; subst; auto; fail).
+  destruct (nth_error fam j) as [[[gj tj] src]|]; [|intros E; inversion E; subst; auto].
+  destruct (graft deep mt ts src mode i h) as [h1 [Y|err]]; intros E; inversion E; subst; auto.
+  intros EN. rewrite nth_error_app1; auto. eapply nth_error_lt; eauto.
+Qed.
+
+(* grafting writes no coordinate atom, topology atom or name cell that existed: the supplier's residues are only read *)
+Lemma step_graft_ext (h : heap) (fam : family) k deep mode j i h' fam' r :
+  step_graft (h, fam) k deep mode j i = ((h', fam'), r) -> ext nonep nonep nonep h h'.
+Proof.
+  unfold step_graft.
+  destruct (nth_error fam k) as [[[g tg] X]|]; [|intros E; inversion E; subst; apply ext_refl].
+  destruct X as [| | |mt ts rs| |]; try (intros E; inversion E; subst; apply ext_refl; fail).
+  destruct (nth_error fam j) as [[[gj tj] src]|]; [|intros E; inversion E; subst; apply ext_refl].
+  pose proof (framed_graft nonep nonep nonep deep mt ts src mode i h) as F.
+  destruct (graft deep mt ts src mode i h) as [h1 [Y|err]]; intros E; inversion E; subst; exact F.
+Qed.
+
 (* ------------------------------------------------------------------ the two kinds of step together *)
 Lemma step_cases (st : heap * family) ko :
   (exists side oj, snd ko = OAliSet side oj /\ step st ko = step_ali st (fst ko) side oj) \/
+  (exists deep mode j i, snd ko = OCopyWith deep mode j i /\ step st ko = step_graft st (fst ko) deep mode j i) \/
   step st ko = step_plain st ko.
-Proof. unfold step. destruct (snd ko); auto. left; eauto. Qed.
+Proof. unfold step. destruct (snd ko); auto. left; eauto. right; left; eauto 8. Qed.
 
 Lemma step_wf h fam ko h' fam' r : wf h fam -> step (h, fam) ko = ((h', fam'), r) -> wf h' fam'.
 Proof.
-  intros W E. destruct (step_cases (h, fam) ko) as [(side & oj & _ & Es)|Es]; rewrite Es in E.
+  intros W E. destruct (step_cases (h, fam) ko) as [(side & oj & _ & Es)|[(dp & md & jj & ii & _ & Es)|Es]]; rewrite Es in E.
   - eapply step_ali_wf; eauto.
+  - eapply step_graft_wf; eauto.
   - eapply step_plain_wf; eauto.
 Qed.
 
 Lemma step_keeps_entry h fam ko h' fam' r i e :
   step (h, fam) ko = ((h', fam'), r) -> nth_error fam i = Some e -> nth_error fam' i = Some e.
 Proof.
-  intros E. destruct (step_cases (h, fam) ko) as [(side & oj & _ & Es)|Es]; rewrite Es in E.
+  intros E. destruct (step_cases (h, fam) ko) as [(side & oj & _ & Es)|[(dp & md & jj & ii & _ & Es)|Es]]; rewrite Es in E.
   - eapply step_ali_keeps_entry; eauto.
+  - eapply step_graft_keeps_entry; eauto.
   - eapply step_plain_keeps_entry; eauto.
 Qed.
 
@@ -611,8 +718,11 @@ Lemma step_frame h fam k o h' fam' r i g tg X :
   (forall gk tk Xk, nth_error fam k = Some (gk, tk, Xk) -> gk <> g) ->
   same_on (hgro h) (hgro h') (gro_locs X).
 Proof.
-  intros W EN E Hav. destruct (step_cases (h, fam) (k, o)) as [(side & oj & _ & Es)|Es]; rewrite Es in E.
+  intros W EN E Hav. destruct (step_cases (h, fam) (k, o)) as [(side & oj & _ & Es)|[(dp & md & jj & ii & _ & Es)|Es]]; rewrite Es in E.
   - apply step_ali_ext in E. destruct E as (_ & _ & _ & F & _).
+    destruct W as [W1 _]. destruct (W1 _ _ _ _ EN) as ((v1 & _) & _).
+    intros l Hl. apply F; auto.
+  - apply step_graft_ext in E. destruct E as (_ & _ & _ & F & _).
     destruct W as [W1 _]. destruct (W1 _ _ _ _ EN) as ((v1 & _) & _).
     intros l Hl. apply F; auto.
   - eapply step_plain_frame; eauto.
@@ -623,8 +733,11 @@ Lemma step_frame_top h fam k o h' fam' r i g tg X :
   (forall gk tk Xk, nth_error fam k = Some (gk, tk, Xk) -> tk <> tg) ->
   same_on (htop h) (htop h') (top_locs X) /\ same_on (hmt h) (hmt h') (mt_locs X).
 Proof.
-  intros W EN E Hav. destruct (step_cases (h, fam) (k, o)) as [(side & oj & _ & Es)|Es]; rewrite Es in E.
+  intros W EN E Hav. destruct (step_cases (h, fam) (k, o)) as [(side & oj & _ & Es)|[(dp & md & jj & ii & _ & Es)|Es]]; rewrite Es in E.
   - apply step_ali_ext in E. destruct E as (_ & _ & _ & _ & F1 & F2).
+    destruct W as [W1 _]. destruct (W1 _ _ _ _ EN) as ((_ & v2 & v3) & _).
+    split; intros l Hl; [apply F1 | apply F2]; auto.
+  - apply step_graft_ext in E. destruct E as (_ & _ & _ & _ & F1 & F2).
     destruct W as [W1 _]. destruct (W1 _ _ _ _ EN) as ((_ & v2 & v3) & _).
     split; intros l Hl; [apply F1 | apply F2]; auto.
   - eapply step_plain_frame_top; eauto.
@@ -652,6 +765,29 @@ Proof.
   apply ali_assign_spec in EA. destruct EA as (rs' & -> & F). simpl in *.
   destruct W as [Wa _]. destruct (Wa _ _ _ _ ENj) as (_ & gl & _).
   exists gj, tj, mt, ts, rs, rs'. splits; auto. lia.
+Qed.
+
+(* `fam[k].copy(residues of fam[j])` / `.deep_copy(...)` that does not raise appends a molecule whose
+   coordinate atoms are ALL freshly allocated, in a new coordinate group (a deep copy: new topology
+   group too): supplier and new molecule are isolated from each other in both directions by `isolation` *)
+Theorem graft_new_group : forall (h : heap) (fam : family) k deep mode j i h1 fam1,
+  wf h fam -> step (h, fam) (k, OCopyWith deep mode j i) = ((h1, fam1), Ok tt) ->
+  exists g tg mt ts rs mt' ts' rs' gj tj src,
+    nth_error fam k = Some (g, tg, HM mt ts rs) /\ nth_error fam j = Some (gj, tj, src) /\
+    fam1 = fam ++ [(length fam, (if deep then length fam else tg), HM mt' ts' rs')] /\ wf h1 fam1 /\
+    length fam <> gj /\ length fam <> g /\
+    fresh_in (length (hgro h)) (length (hgro h1)) (concat rs').
+Proof.
+  intros h fam k deep mode j i h1 fam1 W ES.
+  pose proof (step_wf _ _ _ _ _ _ W ES) as W1.
+  unfold step in ES. simpl in ES. unfold step_graft in ES.
+  destruct (nth_error fam k) as [[[g tg] X]|] eqn:EN; [|inversion ES].
+  destruct X as [| | |mt ts rs| |]; try (inversion ES; fail).
+  destruct (nth_error fam j) as [[[gj tj] src]|] eqn:ENj; [|inversion ES].
+  destruct (graft deep mt ts src mode i h) as [h' [Y|e]] eqn:EG; inversion ES; subst; clear ES.
+  apply graft_spec in EG. destruct EG as (mt' & ts' & rs' & -> & F & _).
+  destruct W as [Wa _]. destruct (Wa _ _ _ _ EN) as (_ & gl & _). destruct (Wa _ _ _ _ ENj) as (_ & gjl & _).
+  exists g, tg, mt, ts, rs, mt', ts', rs', gj, tj, src. splits; auto; lia.
 Qed.
 
 (* ------------------------------------------------------------------ whole runs *)
@@ -800,7 +936,8 @@ Proof.
   pose proof (step_wf _ _ _ _ _ _ W ES) as W1.
   destruct W as [Wa Wb]. destruct (Wa _ _ _ _ EN) as (_ & gl & tgl).
   assert (ES' : step_plain (h, fam) (i, o) = ((h1, fam1), Ok tt)).
-  { destruct (step_cases (h, fam) (i, o)) as [(side & oj & Eo & _)|<-]; auto. simpl in Eo. subst o. simpl in Hk. congruence. }
+  { destruct (step_cases (h, fam) (i, o)) as [(side & oj & Eo & _)|[(dp & md & jj & ii & Eo & _)|<-]]; auto;
+      simpl in Eo; subst o; simpl in Hk; congruence. }
   clear ES. rename ES' into ES.
   unfold step_plain in ES. simpl in ES. rewrite EN in ES.
   destruct (exec X o h) as [h' [r|e]] eqn:EX; [|inversion ES].
